@@ -36,7 +36,17 @@ func genPlanSrv(t *simrt.Tape, tier string) interface{} {
 		clampTiming(&p.Faults)
 		clampTiming(&p.Back)
 	}
+	if p.Conf.Transport != "inproc" && t.Draw(10) == 0 {
+		// a client that stops reading for longer than the server's 5 s I/O poll behind a small
+		// receive window: the server's write runs into its socket deadline inside an envelope
+		p.Back = NoFaults()
+		p.Back.Capacity = []int{8, 64, 200}[t.Draw(3)]
+		p.Back.Stalls = []StallS{{AfterBytes: int64(t.Draw(160)), ForMs: []int{5100, 7000, 12000}[t.Draw(3)]}}
+	}
 	p.LingerS = []int{5, 70, 200}[t.Draw(3)]
+	if len(p.Back.Stalls) > 0 && p.LingerS < 70 {
+		p.LingerS = 70 // the client keeps reading long enough to see what was stuck behind the stall
+	}
 	if t.Draw(8) == 0 {
 		// template: a peer that says one or two things and disappears at once, without waiting
 		// for any answer (the server is still looking at its input when the connection goes)
@@ -99,6 +109,11 @@ func runSrvScenario(w *World, p *PlanSrv, monitor func(s *SUT)) (*History, *SUT,
 	}
 	if p.LingerS < 5 {
 		p.LingerS = 5
+	}
+	for _, st := range p.Back.Stalls {
+		if need := st.ForMs/1000 + 30; p.LingerS < need {
+			p.LingerS = need // keep reading long enough to see what was stuck behind the stall
+		}
 	}
 	sut, err := StartSUT(w, h, p.Conf, 7200)
 	if err != nil {
